@@ -382,6 +382,11 @@ def handle (fn : String) : Handler := fun a impl =>
     let t := pNat t; let X := pList X; let W := pList W
     some (fR (fun (r : Array Nat) => fList r.toList) (do let h ← BoltCc.newDc (pNat m) (pNat r) (pNat n) (pNat N); boltDcRun h t X W),
           fList (specMatmul t (pNat m) (pNat r) (pNat n) X W []))
+  | "bolt_ccdc_r0", [N, t, m, n] =>
+    -- degenerate inner dimension r = 0: the constructor accepts, `multiply` must refuse (no block product to unwrap)
+    let t := pNat t
+    some (fR (fun (r : Array Nat) => fList r.toList) (do let h ← BoltCc.newDc (pNat m) 0 (pNat n) (pNat N); boltDcRun h t [] []),
+          relSpec impl (impl.startsWith "ERR:") "r = 0 is outside the domain of MatmulBoltCcDc: multiply must refuse")
   | _, _ => none
 
 end Drv.C20
